@@ -86,6 +86,20 @@ CHECKS = {
                   'is proved for H/CX/M/R only (per-gate steps for the full set are the generated obligations). Distribution equality is '
                   'a randomized identity test over test vectors.',
         design='§4 C03'),
+    'C06': dict(
+        technique='Coq proof of the tortoise-hare fold (generic over any step function with a bisimulation) + comparison of each '
+                  'folding engine of the implementation with its own unrolled execution',
+        text='Proof: fold_correct and fold_loop_correct: the search/fold procedure as structured in the code (hare every step, '
+             'tortoise every second step, skipped periods and leftover iterations) decompresses to the unrolled output for every '
+             'repetition count, transient and period. Tie H/O: (a) circuit_to_detector_error_model with fold_loops on/off must '
+             'flatten to the same merged errors, probabilities and detector coordinates; (b) the decompressed ReferenceSampleTree must '
+             'equal the directly simulated reference sample; (c) SparseUnsignedRevFrameTracker::undo_loop must leave the same state as '
+             'undo_loop_by_unrolling -- on loop bodies with random Clifford/measure/reset/MPP content, detectors across iterations, '
+             'feedback into and after the loop, SHIFT_COORDS, noise, nested loops, repetition counts 1..257 around every threshold, '
+             'and generated code circuits up to 1000 rounds; hangs/crashes are violations.',
+        note=TB + ' The bisimulation premise (equal tracked state implies equal future outputs) is not proved for the three engines; '
+                  'they are tied by the differential comparison.',
+        design='§4 C06'),
 }
 
 PENDING = 'check not yet built in this round (see DESIGN.md §7 phasing); the Coq model for it is planned, not claimed'
